@@ -52,6 +52,16 @@ struct World
     }
 };
 
+/// str() of a tree; printing is C03's subject: a printer that throws makes the text unavailable here, not a C19 failure
+static std::string safeStr(const expression_t& e)
+{
+    try {
+        return e.str();
+    } catch (std::exception& ex) {
+        return std::string("<str() throws ") + ex.what() + ">";
+    }
+}
+
 static std::string tyTag(const expression_t& e)
 {
     type_t t = e.get_type();
@@ -177,6 +187,24 @@ static std::string refSubst(World& w, const expression_t& e, const symbol_t& s, 
     if (k == IDENTIFIER && e.get_symbol() != symbol_t()) os << " #" << w.sid(e.get_symbol());
     if (k == CONSTANT) os << " " << tyTag(e);
     for (size_t i = 0; i < e.get_size(); ++i) os << " " << refSubst(w, e[i], s, r);
+    os << ")";
+    return os.str();
+}
+
+/// reference for clone_deeper(frame): the same tree with every symbol replaced by what the frame resolves its name to
+static std::string refFrame(World& w, const expression_t& e, const frame_t& fr)
+{
+    if (e.empty()) return "()";
+    std::ostringstream os;
+    auto k = e.get_kind();
+    os << "(" << kindName(k) << " " << valOf(e);
+    if (k == IDENTIFIER && e.get_symbol() != symbol_t()) {
+        symbol_t uid;
+        frame_t f = fr;
+        if (f.resolve(e.get_symbol().get_name(), uid) && uid != symbol_t()) os << " #" << w.sid(uid);
+    }
+    if (k == CONSTANT) os << " " << tyTag(e);
+    for (size_t i = 0; i < e.get_size(); ++i) os << " " << refFrame(w, e[i], fr);
     os << ")";
     return os.str();
 }
@@ -312,11 +340,11 @@ struct Laws
 
     void cloneLaws(const expression_t& e, const std::string& tag)
     {
-        std::string before = canon(w, e), text = e.str();
+        std::string before = canon(w, e), text = safeStr(e);
         expression_t c = e.clone_deeper();
         ok("clone_equal");
         if (!c.equal(e) || !e.equal(c)) fail("clone_equal", kindName(e.get_kind()), tag + " " + plain(w, e, true));
-        if (plain(w, c, true) != plain(w, e, true) || c.str() != text) fail("clone_same_structure", kindName(e.get_kind()), tag);
+        if (plain(w, c, true) != plain(w, e, true) || safeStr(c) != text) fail("clone_same_structure", kindName(e.get_kind()), tag);
         ok("clone_no_shared_node");
         if (sharesNode(c, e)) fail("clone_no_shared_node", kindName(e.get_kind()), tag + " " + canon(w, c));
         // later changes to either do not affect the other: overwrite every child slot and every type of the clone
@@ -330,10 +358,10 @@ struct Laws
             for (size_t i = 0; i < n.get_size(); ++i) n[i] = expression_t::create_constant(424242);
         }
         ok("mutate_independent");
-        if (canon(w, e) != before || e.str() != text) fail("mutate_independent", kindName(e.get_kind()), tag + " original changed after mutating its deep clone");
+        if (canon(w, e) != before || safeStr(e) != text) fail("mutate_independent", kindName(e.get_kind()), tag + " original changed after mutating its deep clone");
         // and the other direction, on a scratch pair so that the pool tree stays intact
         expression_t a = e.clone_deeper(), b = a.clone_deeper();
-        std::string sb = plain(w, b, true), tb = b.str();
+        std::string sb = plain(w, b, true), tb = safeStr(b);
         ps.clear();
         paths(a, cur, ps);
         for (auto it = ps.rbegin(); it != ps.rend(); ++it) {
@@ -341,7 +369,15 @@ struct Laws
             for (size_t i = 0; i < n.get_size(); ++i) n[i] = expression_t::create_constant(-7);
         }
         ok("mutate_independent");
-        if (plain(w, b, true) != sb || b.str() != tb) fail("mutate_independent", kindName(e.get_kind()), tag + " deep clone changed after mutating the original");
+        if (plain(w, b, true) != sb || safeStr(b) != tb) fail("mutate_independent", kindName(e.get_kind()), tag + " deep clone changed after mutating the original");
+        // clone_deeper(frame): symbols re-resolved by name, everything else copied
+        {
+            frame_t fr = w.doc->get_globals().frame;
+            expression_t cf = e.clone_deeper(fr);
+            ok("clone_frame");
+            if (plain(w, cf, true) != refFrame(w, e, fr) || sharesNode(cf, e))
+                fail("clone_frame", kindName(e.get_kind()), tag + " got " + plain(w, cf, true) + " want " + refFrame(w, e, fr));
+        }
         // shallow clone: a new root sharing the children
         expression_t s = e.clone();
         ok("clone_shallow");
@@ -354,7 +390,7 @@ struct Laws
     {
         std::vector<symbol_t> ss;
         symbolsOf(e, ss);
-        std::string before = canon(w, e), text = e.str();
+        std::string before = canon(w, e), text = safeStr(e);
         for (auto& s : ss) {
             // by itself: identity
             expression_t self = e.subst(s, expression_t::create_identifier(s));
@@ -367,7 +403,7 @@ struct Laws
                 if (plain(w, t, true) != refSubst(w, e, s, r))
                     fail("subst_exact", kindName(e.get_kind()), tag + " sym=" + s.get_name() + " got " + plain(w, t, true) + " want " + refSubst(w, e, s, r));
                 ok("subst_preserves_source");
-                if (canon(w, e) != before || e.str() != text)
+                if (canon(w, e) != before || safeStr(e) != text)
                     fail("subst_preserves_source", kindName(e.get_kind()), tag + " sym=" + s.get_name());
                 // clone_deeper(from, to) with an identifier replacement is the same renaming
                 if (r.get_kind() == IDENTIFIER) {
@@ -412,8 +448,8 @@ struct Laws
             if (pt.what == "constant-type") {
                 // not a difference `equal` is required to see; but equality must then imply equal text
                 ok("equal_implies_same_text");
-                if (eq1 && e.str() != pe.str())
-                    fail("equal_implies_same_text", "constant-type:" + pt.detail, tag + " @" + pathStr(pt.path) + " " + quote(e.str()) + " vs " + quote(pe.str()));
+                if (eq1 && safeStr(e) != safeStr(pe))
+                    fail("equal_implies_same_text", "constant-type:" + pt.detail, tag + " @" + pathStr(pt.path) + " " + quote(safeStr(e)) + " vs " + quote(safeStr(pe)));
             } else {
                 ok("equal_distinguishes");
                 if (eq1 || eq2) fail("equal_distinguishes", shape, tag + " @" + pathStr(pt.path) + " " + plain(w, e, true) + " vs " + plain(w, pe, true));
@@ -431,8 +467,8 @@ struct Laws
                 if (eq[i][j] != eq[j][i]) fail("equal_symm", kindName(e.get_kind()), tag);
                 if (eq[i][j] && i != j) {   // (a perturbed tree need not be printable; two equal distinct trees are e, its clones, constant-type variants)
                     ok("equal_implies_same_text");
-                    if (variants[i].str() != variants[j].str() && plain(w, variants[i], false) != plain(w, variants[j], false))
-                        fail("equal_implies_same_text", "structure", tag + " " + quote(variants[i].str()) + " vs " + quote(variants[j].str()));
+                    if (safeStr(variants[i]) != safeStr(variants[j]) && plain(w, variants[i], false) != plain(w, variants[j], false))
+                        fail("equal_implies_same_text", "structure", tag + " " + quote(safeStr(variants[i])) + " vs " + quote(safeStr(variants[j])));
                 }
                 if (eq[i][j]) {
                     ok("equal_structural");
@@ -548,7 +584,7 @@ int main(int argc, char** argv)
             } else if (op == "TEXT") {
                 size_t k;
                 is >> k;
-                std::cout << "TEXT " << quote(w.pool.at(k).str()) << std::endl;
+                std::cout << "TEXT " << quote(safeStr(w.pool.at(k))) << std::endl;
             } else if (op == "clone_deeper") {
                 size_t k;
                 is >> k;
